@@ -464,4 +464,20 @@ theorem gen_conjectured_eq_documented {o : Options} {bits n : Nat} (cr : Nat) (h
 example : C18G.genConjOk ⟨27, 8, 16, .quadratic, 8, 127⟩ 64 (2 ^ 20) 128 = true ∧
     C18G.genConj ⟨27, 8, 16, .quadratic, 8, 127⟩ 64 (2 ^ 20) 128 = 96 := by decide
 
+open C18G in
+/-- ★ the constructor, on the regenerated function (Winter/Gen/ProofOpts.lean, from air/src/options.rs):
+    `ProofOptions::new` (its assertions as translated on this run) accepts exactly the documented sets -/
+theorem gen_options_new_ok_iff (q b g : Nat) (e : Ext) (ff fr en : Nat) :
+    Gen.ProofOpts.new_ok q b g en ff fr = true ↔
+      (1 ≤ q ∧ q ≤ 255 ∧ b ∈ [2, 4, 8, 16, 32, 64, 128] ∧ g ≤ 32 ∧ ff ∈ [2, 4, 8, 16] ∧
+        fr ∈ [0, 1, 3, 7, 15, 31, 63, 127, 255]) := by
+  rw [gen_new_ok_eq_accepted q b g e ff fr en]
+  have key := options_new_ok_iff q b g e ff fr ⟨q, b, g, e, ff, fr⟩
+  unfold Options.new at key
+  by_cases h : (⟨q, b, g, e, ff, fr⟩ : Options).accepted = true
+  · rw [if_pos h] at key
+    exact ⟨fun _ => (key.mp rfl).1, fun _ => h⟩
+  · rw [if_neg h] at key
+    exact ⟨fun c => absurd c h, fun hd => absurd (key.mpr ⟨hd, rfl⟩) (by simp)⟩
+
 end C18
